@@ -1108,7 +1108,7 @@ def _applied_passes(mod, fn, unit):
   return out
 
 
-@rule("R11.7", "C11", floor=2)
+@rule("R11.7", "C11", floor=3)
 def r11_7(ctx):
   """A pass that reasons about bare class names runs on simplified containers."""
   mod = get_module(ctx, OPT)
@@ -1180,13 +1180,14 @@ def r11_7(ctx):
                                                  ast.With, ast.Try))
                  and n.lineno > last_consumer_line
                  for p in _applied_passes(mod, fn, n) & CREATES_ANY_CONTAINER})
-  if late:
-    ctx.note(
-        f"R11.7 (recorded, not judged): {late} can create X[Any] after the "
-        "last bare-class consumer; the final SimplifyContainers then exposes "
-        "a bare X that no hierarchy pass sees in this run "
-        "(Union[Stack, list[object]] -> Union[Stack, list] -> list on a "
-        "second run)")
+  ctx.check(not late, "Optimize:no-X[Any]-producer-after-last-hierarchy-pass", OPT,
+            last_consumer_line,
+            f"{late} can create X[Any] after the last bare-class consumer; the "
+            "final SimplifyContainers then exposes a bare X that no hierarchy "
+            "pass sees in this run (Union[Stack, list[object]] -> "
+            "Union[Stack, list], and -> list on a second run): Optimize is "
+            "not idempotent (defect D46, repaired by 2abd347)",
+            {"late_producers": late})
 
 
 VARIANTS = [
@@ -1344,4 +1345,7 @@ VARIANTS = [
     {"name": "twin-hierarchy-pass-object-built-early", "rule": "R11.7", "expect": "silent",
      "edits": [(OPT, "    node = node.Visit(SimplifyUnionsWithSuperclasses(hierarchy))",
                 "    absorb = SimplifyUnionsWithSuperclasses(hierarchy)\n    node = node.Visit(absorb)")]},
+    {"name": "revert-D46-no-final-hierarchy-pass", "rule": "R11.7", "file": OPT, "expect": "fire",
+     "old": "  if deps:\n    # SimplifyContainers can expose a bare class (list[Any] -> list) that the\n    # hierarchy pass above could not yet relate to its subclasses.\n    node = node.Visit(SimplifyUnionsWithSuperclasses(hierarchy))\n",
+     "new": ""},
 ]
